@@ -196,6 +196,9 @@ def account_nonempty(P, R, writers, rule='C05.GRD.7'):
                             terms.add(const_of(o))
         if not terms:
             raise AnalysisBroken('the account setter %s has no recognisable terminator test' % setter.name)
+        # ... nor with a colon: the stamp is sent on as a word of the verdict line, and a word that starts with ':' begins
+        # the trailing parameter there (it would swallow the class that follows)
+        terms.add(ord(':'))
         for s in P.callers(setter, may=True):
             f = s.fn
             a = s.ev['args'][1] if len(s.ev['args']) > 1 else None
